@@ -46,6 +46,7 @@ type Contract struct {
 	Trusted   bool // from /verif/trusted (never verified against a body)
 	Loops     map[int]*LoopSpec
 	Closures  map[int]*Contract // closure ordinal -> contract (invariants etc.)
+	IterInvs  []*Clause         // closure contracts: iteration invariants of the call that runs the callback
 	File      string
 	Line      int
 	Witnesses map[string]string
@@ -291,6 +292,16 @@ func (db *SpecDB) parseSpecFile(path string, src []byte, pkgShort string, truste
 			tgt, curLoop = cur, nil
 		case "invariant":
 			if curLoop == nil {
+				// directly under `closure N`: an iteration invariant of the library call that runs the callback
+				// (btree Ascend*, sync.Map.Range): holds before the first run and after every run
+				if tgt != nil && tgt != cur {
+					c, err := mkClause(rest)
+					if err != nil {
+						return err
+					}
+					tgt.IterInvs = append(tgt.IterInvs, c)
+					break
+				}
 				return fmt.Errorf("%s: invariant outside loop", loc)
 			}
 			c, err := mkClause(rest)
